@@ -143,6 +143,12 @@ func c07Judge(in []byte, crc bool, identical *atomic.Int64) (string, string) {
 	return "", ""
 }
 
+// c07Huge: an input whose size needs all four bytes of the header's size field.
+func c07Huge() namedInput {
+	t := corpusText(1 << 30)
+	return namedInput{"text-repeated/16MiB+4321", bytes.Repeat(t, (1<<24+4321)/len(t)+1)[:1<<24+4321]}
+}
+
 func C07(args []string) {
 	r := core.Begin("C07", "model_checking", args)
 	r.WatchProgress(watchPeriod()) // the code under test runs in this process: a call that never returns must end the check
@@ -154,7 +160,7 @@ func C07(args []string) {
 		var in []byte
 		fmt.Sscanf(f.Case.InputHex, "%x", &in)
 		if f.Case.Family == "long" {
-			for _, li := range longFamily(true) {
+			for _, li := range append(longFamily(true), c07Huge()) {
 				if li.Name == f.Case.Name {
 					in = li.Data
 				}
@@ -253,6 +259,8 @@ func C07(args []string) {
 		r.Nontrivial.Add(1)
 	})
 	longs := longFamily(r.Thorough())
+	// an input whose size needs all four bytes of the header's size field
+	longs = append(longs, c07Huge())
 	core.ParallelFor(len(longs)*2, func(i int) {
 		li := longs[i/2]
 		crc := i%2 == 0
